@@ -14,7 +14,9 @@ Create HintDb pl.
 Create HintDb plwf.
 Create HintDb plunf.
 
-#[global] Hint Resolve mp_spec prop1_spec prop2_spec prop3_spec : pl.
+#[global] Hint Resolve mp_spec prop1_spec prop2_spec prop3_spec gen_spec : pl.
+#[global] Hint Extern 1 (conc (load_ax _ _) = Some _) =>
+  apply load_ax_spec; vm_compute; reflexivity : pl.
 #[global] Hint Extern 1 (conc (dynamic_inst _ (build_subst _)) = Some _) =>
   eapply dynamic_inst_build_spec : pl.
 #[global] Hint Extern 1 (conc (load_ax_by_index _ _) = Some _) =>
@@ -38,10 +40,10 @@ Ltac lib_spec m :=
   solve [ eauto 200 with pl nocore ].
 
 #[global] Hint Resolve prop1_wf prop2_wf prop3_wf mp_wf dynamic_inst_wf guard_wf none_wf
-  load_ax_by_index_incl_wf ax_incl_nil ax_incl_refl : plwf.
-#[global] Hint Extern 1 (owf _ (bindc _ _)) =>
+  load_ax_by_index_incl_wf load_ax_incl_wf ax_incl_nil ax_incl_refl : plwf.
+#[global] Hint Extern 1 (owf _ _ (bindc _ _)) =>
   first [ apply bindc_pair_wf | apply bindc_wf ]; intros; cbn beta iota zeta : plwf.
-#[global] Hint Extern 1 (owf _ (let _ := _ in _)) => cbn zeta : plwf.
+#[global] Hint Extern 1 (owf _ _ (let _ := _ in _)) => cbn zeta : plwf.
 
 Ltac lib_wf m :=
   intros; unfold m; autounfold with plunf; cbn zeta;
